@@ -91,10 +91,10 @@ def A(item, attr):
 tail_v01 = [A({'u': 8, 'name': 'serial'}, 'serial'), {'u': 4, 'name': 'type'}, string(name='key id'), A(S('SshCertValidPrincipals'), 'valid_principals'),
             A({'ts': 8, 'name': 'valid after'}, 'valid_after'), A({'ts': 8, 'name': 'valid before'}, 'valid_before'),
             A(S('SshCertCriticalOptionVector'), 'critical_options'), A(S('SshCertExtensionVector'), 'extensions'),
-            blob('reserved'), wrapped(['SshHostPublicKeyVariant', 'SshPublicKeyBase']), wrapped(['SshCertSignature'])]
+            blob('reserved'), wrapped(['SshCertSignatureKeyVariant', 'SshHostPublicKeyVariant', 'SshPublicKeyBase']), wrapped(['SshCertSignature'])]
 tail_v00 = [{'u': 4, 'name': 'type'}, string(name='key id'), A(S('SshCertValidPrincipals'), 'valid_principals'), A({'ts': 8}, 'valid_after'), A({'ts': 8}, 'valid_before'),
             A(S('SshCertConstraintVector'), 'constraints'),
-            blob('nonce'), blob('reserved'), wrapped(['SshHostPublicKeyVariant', 'SshPublicKeyBase']), wrapped(['SshCertSignature'])]
+            blob('nonce'), blob('reserved'), wrapped(['SshCertSignatureKeyVariant', 'SshHostPublicKeyVariant', 'SshPublicKeyBase']), wrapped(['SshCertSignature'])]
 keys = {'DSS': [mpint('p'), mpint('q'), mpint('g'), mpint('y')], 'RSA': [mpint('e'), mpint('n')],
         'ECDSA': [string(), blob('public_key')], 'EDDSA': [blob('pk')]}
 for k in ('DSS', 'RSA', 'ECDSA', 'EDDSA'):
